@@ -40,7 +40,7 @@ def provenance_rule(ctx, cfg, key, spec, pre=None, cases=None, rule="C09.M"):
     problems, notes = [], []
     if not a.returns:
         problems.append("no return path")
-    foreign = [c.fn for c in a.calls if cl.classify(c, a.body) == "foreign"]
+    foreign = [c.fn for c in a.calls if cl.classify(c, a.body) == "foreign" and not getattr(c, "no_effects", False)]
     if foreign:
         problems.append("calls that can run foreign code inside a pure regrouping: %s" % sorted(set(foreign)))
     # the inputs are moved out bytewise: dropping one of them afterwards would drop the elements a second time
